@@ -46,13 +46,14 @@ CONFIGS = {
     'expiry2': ({'c1': [op(A, job=1), op(A, job=2)], 'ctl': [op(S), op(RS), op(WU)]}, {'Conc0': 2, 'Expiry': True}, 'heavy'),
     'ctx': ({'c1': [op(A, job=1)], 'ctl': [op(RS)], 'x': [op(CC)]}, {'WithCtx': True, 'Jobs': [1]}, 'thorough'),
     'ctx0': ({'ctl': [op(RS)], 'x': [op(CC)]}, {'WithCtx': True, 'Jobs': [1]}, 'quick'),
+    'tuneratio': ({'c1': [op(A, job=1), op(WU)], 'ctl': [op(T, n=2), op(T, n=1), op(T, n=3)]}, {'Jobs': [1], 'Nodes': [1, 2, 3], 'PGSeq': ['pg1', 'pg2', 'pg3'], 'Conc0': 3, 'Ratio': 100}, 'quick'),
     'ratio': ({'c1': [op(A, job=1), op(A, job=2), op(A, job=3), op(WU)]}, {'Jobs': [1, 2, 3], 'Nodes': [1, 2, 3], 'PGSeq': ['pg1', 'pg2', 'pg3'], 'Conc0': 3, 'Ratio': 100}, 'thorough'),
 }
 
 DEFAULTS = {'Jobs': [1, 2], 'QKind': 'fifo', 'Nodes': [1, 2], 'DispSeq': ['disp1', 'disp2'], 'PGSeq': ['pg1', 'pg2'],
             'Conc0': 1, 'Ratio': 0, 'Expiry': False, 'WithCtx': False, 'MaxGen': 1}
 
-SAFETY = ['TypeOK', 'NoViolation', 'C01_AtMostOnce', 'C01_NoRejected', 'C02_Bound', 'C09_PauseBound', 'C17_Bounds', 'C18_PoolBound',
+SAFETY = ['TypeOK', 'NoViolation', 'C01_AtMostOnce', 'C01_NoRejected', 'C02_Bound', 'C09_PauseBound', 'C17_Bounds', 'C18_PoolBound', 'C18_IdleAtRest',
           'NodeOwnership', 'OneLoop', 'C03_NoStall', 'C06_Returns', 'C05_Returns']
 
 
